@@ -144,7 +144,8 @@ def manufactured(rep, rng, n):
     from optyx.solution import SolverStatus
     from optyx.solvers.scipy_solver import _compute_initial_point
     tried = conv = 0
-    layouts = ["none", "eq", "ineq_active", "ineq_inactive", "bounds_active", "bounds_inactive", "eq_then_ineq", "ineq_then_eq", "two_ineq"]
+    layouts = ["none", "eq", "ineq_active", "ineq_inactive", "bounds_active", "bounds_inactive", "eq_then_ineq", "ineq_then_eq", "two_ineq",
+               "bound_exactly_zero"]
     edits_hist = {}
     for i in range(n):
         r = random.Random(rng.random())
@@ -215,7 +216,8 @@ def manufactured(rep, rng, n):
             "w_active": (lambda: spell(wexpr, ">=", float(w @ a) + 0.8), lambda o: {"type": "ineq", "fun": lambda x: wdot(x, o) - (float(w @ a) + 0.8), "jac": lambda x: wjac(x, o)}),
         }
         seq = {"none": [], "eq": ["eq"], "ineq_active": ["ineq_active"], "ineq_inactive": ["ineq_inactive"], "bounds_active": [], "bounds_inactive": [],
-               "eq_then_ineq": ["eq", "w_active"], "ineq_then_eq": ["w_active", "eq"], "two_ineq": ["ineq_active", "w_active"]}[cons_kind]
+               "eq_then_ineq": ["eq", "w_active"], "ineq_then_eq": ["w_active", "eq"], "two_ineq": ["ineq_active", "w_active"],
+               "bound_exactly_zero": []}[cons_kind]
         builders = []
         for nm in seq:
             P.subject_to(piece[nm][0]())
@@ -225,6 +227,13 @@ def manufactured(rep, rng, n):
         elif cons_kind == "bounds_inactive":
             vs[0].lb = float(a[0]) - 5.0
             vs[0].ub = float(a[0]) + 5.0
+        elif cons_kind == "bound_exactly_zero":
+            # the bound value 0 (int and float spellings) on the side the objective pushes against
+            for k_ in range(nv):
+                if a[k_] > 0:
+                    vs[k_].ub = 0 if k_ % 2 == 0 else 0.0
+                else:
+                    vs[k_].lb = 0 if k_ % 2 == 0 else -0.0
 
         def compare(tag, history):
             nonlocal tried, conv
